@@ -354,6 +354,13 @@ func c02Floats(c *mon.Ctx, r *rand.Rand) {
 			c02Expect(c, r, node, "-0", "T", "negative-zero")
 			c02Expect(c, r, node, "-0.0", "T", "negative-zero")
 		}
+		// infinities and NaN spellings (ParseFloat: case-insensitive, optional sign)
+		inf := univ.FloatOf(t, math.Inf(1))
+		ninf := univ.FloatOf(t, math.Inf(-1))
+		c02Expect(c, r, inf, []string{"Inf", "inf", "+Inf", "Infinity", "+infinity", "INF"}[r.Intn(6)], "T", "infinity-spelling")
+		c02Expect(c, r, ninf, []string{"-Inf", "-inf", "-Infinity", "-INFINITY"}[r.Intn(4)], "T", "infinity-spelling")
+		c02Expect(c, r, inf, []string{"-Inf", "1e308", "0"}[r.Intn(3)], "F", "infinity-spelling")
+		c02Expect(c, r, node, []string{"Inf", "-Infinity", "NaN", "nan", "NAN"}[r.Intn(5)], "F", "finite-vs-inf-or-nan-literal")
 		c.Count("float64_cases")
 		return
 	}
@@ -382,6 +389,8 @@ func c02Floats(c *mon.Ctx, r *rand.Rand) {
 	if !math.IsInf(float64(y), 0) {
 		c02Expect(c, r, node, strconv.FormatFloat(float64(y), 'g', -1, 32), "F", "adjacent-float32")
 	}
+	c02Expect(c, r, univ.FloatOf(t, math.Inf(1)), []string{"Inf", "infinity", "+Inf"}[r.Intn(3)], "T", "infinity-spelling")
+	c02Expect(c, r, node, []string{"NaN", "Inf", "-inf"}[r.Intn(3)], "F", "finite-vs-inf-or-nan-literal")
 	bad := []string{"abc", "", "1e39", "3.5e38", "-1e39", "1e999"}
 	c02Expect(c, r, node, bad[r.Intn(len(bad))], "E", "invalid-or-out-of-range-float32-literal")
 }
